@@ -231,8 +231,8 @@ def static_call_sites(facts):
     return sites, refs
 
 
-def candidates(facts, pinned, allow_pub=()):
-    """Bodies that may be inlined into their single caller."""
+def candidates(facts, pinned, allow_pub=(), multi=()):
+    """Bodies that may be inlined into their single caller (those in `multi`: into each of up to three callers)."""
     sites, refs = static_call_sites(facts)
     out = {}
     for k, b in facts.mir.items():
@@ -244,6 +244,9 @@ def candidates(facts, pinned, allow_pub=()):
         if k in pinned or b.path in pinned or k in refs:
             continue
         ss = sites.get(k, [])
+        if k in multi and 2 <= len(ss) <= 3 and all(c != k for c, _b in ss) and len(set(c for c, _b in ss)) == len(ss):
+            out[k] = ss          # a small shared delegate: one copy per caller
+            continue
         if len(ss) != 1 or ss[0][0] == k:
             continue
         out[k] = ss[0]
@@ -264,12 +267,26 @@ def inline_selected(facts, cands):
     owned = set()      # bodies whose JSON is already a private copy
     done = []
     remaining = dict(cands)
+    def callers_of(v_):
+        return [c for (c, _b) in v_] if isinstance(v_, list) else [v_[0]]
     while remaining:
-        ready = [k for k in remaining if not any(c == k for (c, _b) in remaining.values())]
+        ready = [k for k in remaining if not any(k in callers_of(v_) for v_ in remaining.values())]
         if not ready:
             break          # mutual recursion between helpers: leave them
         k = sorted(ready)[0]
-        caller_k, _old_bi = remaining.pop(k)
+        site_spec = remaining.pop(k)
+        if isinstance(site_spec, list):
+            todo_callers = [c for (c, _b) in site_spec]
+        else:
+            todo_callers = [site_spec[0]]
+        for caller_k in todo_callers:
+            _inline_into(nf, owned, k, caller_k, done)
+    nf.inlined = done
+    return nf, done
+
+
+def _inline_into(nf, owned, k, caller_k, done):
+    if True:
         caller, callee = nf.mir[caller_k], nf.mir[k]
         cj = caller.j
         if caller_k not in owned:
@@ -284,7 +301,7 @@ def inline_selected(facts, cands):
                     site = blk["i"]
                     break
         if site is None:
-            continue
+            return
         inline_call(cj, site, callee.j)
         nf.mir[caller_k] = Body(caller_k, cj, nf)
         # closures created inside the helper now belong to the caller's typeck root
@@ -296,6 +313,5 @@ def inline_selected(facts, cands):
                 if nj.get("parent") == callee.path:
                     nj["parent"] = cj["path"]
                 nf.mir[ck] = Body(ck, nj, nf)
-        done.append(callee.path)
-    nf.inlined = done
-    return nf, done
+        if callee.path not in done:
+            done.append(callee.path)
